@@ -787,7 +787,7 @@ fn gen_case(rng: &mut Rng) -> (Cfg, Vec<Vec<String>>) {
     for _ in 0..len {
       let k = rng.below(nkeys);
       if holding && rng.chance(1, 2) { p.push("release".into()); holding = false; continue; }
-      let op = *rng.weighted(&[(30u32, "insert"), (14, "remove"), (12, "compute"), (12, "orinsert"), (10, "read"), (4, "trycompute"), (3, "clear"), (4, "maint"), (if holding { 0 } else { 2 }, "hold")]);
+      let op = *rng.weighted(&[(30u32, "insert"), (14, "remove"), (if holding { 0 } else { 12 }, "compute"), (12, "orinsert"), (10, "read"), (4, "trycompute"), (3, "clear"), (4, "maint"), (if holding { 0 } else { 2 }, "hold")]);
       p.push(match op {
         "insert" => { next_v += 1; format!("insert {k} {next_v} {}", rng.range(1, 3)) }
         "orinsert" => { next_v += 1; format!("orinsert {k} {next_v} {}", rng.range(1, 3)) }
